@@ -1141,8 +1141,22 @@ def oracle(run, decls, ops, outs, final_names, final_insts, toklist, case):
 
 # --------------------------------------------------------------------------- MOF compilation path (oracle only)
 
-def mof_text(decls, classes):
-    return '\n'.join([build_decl(d).tomof() for d in decls] + [build_cls(c).tomof() for c in classes])
+def mof_text(decls, classes, rng=None, forms=None):
+    """MOF source of the declarations; with `rng`, half of the classes get an alias (`class X as $A_i`),
+    so that together with present/absent qualifier list and superclass all 8 forms of the
+    classDeclaration rule occur; `forms` collects which"""
+    import re
+    out = [build_decl(d).tomof() for d in decls]
+    for i, c in enumerate(classes):
+        t = build_cls(c).tomof()
+        alias = rng is not None and rng.random() < 0.5
+        if alias:
+            t, n = re.subn(r'^class (\S+)', lambda m: 'class %s as $A_%d' % (m.group(1), i), t, count=1, flags=re.M)
+            assert n == 1
+        if forms is not None:
+            forms.append('q%da%ds%d' % (bool(c.get('q')), alias, bool(c.get('sup'))))
+        out.append(t)
+    return '\n'.join(out)
 
 
 def essence(k):
@@ -1153,7 +1167,8 @@ def essence(k):
     def el(e):
         return [fcps(e['n']).lower(), fcps(e['org']).lower() if e['org'] else None, bool(e['p']), qs(e['q']),
                 sorted([fcps(p['n']).lower(), qs(p['q'])] for p in e['ps'])]
-    return {'q': qs(k['q']), 'props': sorted(el(e) for e in k['props']), 'meths': sorted(el(e) for e in k['meths'])}
+    return {'sup': fcps(k['sup']).lower() if k['sup'] else None, 'q': qs(k['q']),
+            'props': sorted(el(e) for e in k['props']), 'meths': sorted(el(e) for e in k['meths'])}
 
 
 def mof_case(seed):
@@ -1171,6 +1186,8 @@ def mof_case(seed):
     creates = [json.loads(json.dumps(op)) for op in ops]
     for op in creates:
         c = op['c']
+        if not c.get('sup'):
+            c['sup'] = None            # tomof() of superclass '' is not MOF (C08 territory)
         for e in c['props'] + c['meths']:
             e.pop('p', None); e.pop('org', None)
         for holder in [c] + c['props'] + c['meths'] + [p for m in c['meths'] for p in m.get('ps', [])]:
@@ -1188,11 +1205,13 @@ def mof_case(seed):
         return None
     conn2 = pywbem_mock.FakedWBEMConnection(default_namespace=NS)
     try:
-        text = mof_text(decls, accepted)
+        forms = []
+        text = mof_text(decls, accepted, rng, forms)
         conn2.compile_mof_string(text)
     except Exception as e:  # noqa
         return {'seed': seed, 'compile_error': type(e).__name__, 'msg': str(e)[:300], 'n': len(accepted)}
-    res = {'seed': seed, 'n': len(accepted), 'diffs': [], 'decls': decls, 'classes': accepted, 'full': {}}
+    res = {'seed': seed, 'n': len(accepted), 'diffs': [], 'decls': decls, 'classes': accepted, 'full': {},
+           'forms': forms}
     tok = real.tok
     for c in accepted:
         a = real.conn.GetClass(c['n'], LocalOnly=False, IncludeQualifiers=True, IncludeClassOrigin=True)
@@ -1201,10 +1220,73 @@ def mof_case(seed):
         res['full'][c['n'].lower()] = wb
         if essence(wa) != essence(wb):
             res['diffs'].append(c['n'])
+        # the hierarchy queries must agree as well
+        ea = sorted(n.lower() for n in real.conn.EnumerateClassNames(ClassName=c['n'], DeepInheritance=True))
+        eb = sorted(n.lower() for n in conn2.EnumerateClassNames(ClassName=c['n'], DeepInheritance=True))
+        if ea != eb and c['n'] not in res['diffs']:
+            res['diffs'].append(c['n'])
     res['toklist'] = [[k[0], k[1], v] for k, v in tok.m.items()]
     return res
 
 
+
+
+# --------------------------------------------------------------------------- the 8 forms of a MOF class declaration
+
+MOF_FORMS = '''
+Qualifier Description : string = null, Scope(any), Flavor(EnableOverride, ToSubclass, Translatable);
+class F_Base { string p; };
+class F000 { string a; };
+class F001 : F_Base { string a; };
+class F010 as $F010 { string a; };
+class F011 as $F011 : F_Base { string a; };
+[Description("x")] class F100 { string a; };
+[Description("x")] class F101 : F_Base { string a; };
+[Description("x")] class F110 as $F110 { string a; };
+[Description("x")] class F111 as $F111 : f_base { string a; };
+'''
+
+
+def mof_forms_probe(run):
+    """classDeclaration := [qualifierList] CLASS className [alias] [superClass] '{' … '}' : every one of
+    the 8 combinations must compile to a class with the declared superclass, qualifiers and
+    inherited elements, show in its parent's subtree and go with it on DeleteClass"""
+    import pywbem_mock
+    conn = pywbem_mock.FakedWBEMConnection(default_namespace=NS)
+    case = {'probe': 'mof-forms'}
+    try:
+        conn.compile_mof_string(MOF_FORMS)
+    except Exception as e:  # noqa
+        run.violate({'kind': 'mof_class_declaration_form_wrong', 'check': 'compile'}, case, common.exc_json(e))
+        return
+    subs = []
+    for q in (0, 1):
+        for a in (0, 1):
+            for s_ in (0, 1):
+                name = 'F%d%d%d' % (q, a, s_)
+                form = 'q%da%ds%d' % (q, a, s_)
+                run.count('mof-probe:form:' + form)
+                k = conn.GetClass(name, LocalOnly=False, IncludeQualifiers=True, IncludeClassOrigin=True)
+                sup = (k.superclass or '').lower()
+                if sup != ('f_base' if s_ else ''):
+                    run.violate({'kind': 'mof_class_declaration_form_wrong', 'form': form, 'check': 'superclass'},
+                                case, {'class': name, 'superclass': k.superclass})
+                if ('p' in k.properties) != bool(s_) or 'a' not in k.properties:
+                    run.violate({'kind': 'mof_class_declaration_form_wrong', 'form': form, 'check': 'elements'},
+                                case, {'class': name, 'properties': list(k.properties.keys())})
+                if ('Description' in k.qualifiers) != bool(q):
+                    run.violate({'kind': 'mof_class_declaration_form_wrong', 'form': form, 'check': 'qualifiers'},
+                                case, {'class': name, 'qualifiers': list(k.qualifiers.keys())})
+                if s_:
+                    subs.append(name.lower())
+    got = sorted(n.lower() for n in conn.EnumerateClassNames(ClassName='F_Base', DeepInheritance=True))
+    if got != sorted(subs):
+        run.violate({'kind': 'mof_class_declaration_form_wrong', 'check': 'subtree'}, case,
+                    {'expected': sorted(subs), 'got': got})
+    conn.DeleteClass('F_Base')
+    left = sorted(n.lower() for n in conn.EnumerateClassNames(DeepInheritance=True))
+    if left != ['f000', 'f010', 'f100', 'f110']:
+        run.violate({'kind': 'mof_class_declaration_form_wrong', 'check': 'delete'}, case, {'left': left})
 
 # --------------------------------------------------------------------------- names outside ASCII (oracle only)
 
@@ -1404,6 +1486,7 @@ def run(run):
         del results, answers
         _thin(run)
     unicode_probe(run)
+    mof_forms_probe(run)
     # MOF compilation path: same forests through the MOF compiler (real code only)
     nm = 400 if run.thorough else 60
     mres = common.pmap(mof_case, [rng.getrandbits(48) for _ in range(nm)], chunksize=4)
@@ -1415,6 +1498,8 @@ def run(run):
             run.count('mof:compile-error:' + r['compile_error'])
             continue
         run.count('mof:forests')
+        for f_ in r.get('forms', []):
+            run.count('mof:form:' + f_)
         case = {'mof_seed': r['seed']}
         for cn in r['diffs']:
             run.violate({'kind': 'mof_built_class_differs_from_createclass_built'}, case, {'class': cn})
@@ -1456,6 +1541,12 @@ def search(run):
 def replay(payload):
     case = payload['case']
     r = common.Run(PROP, 'quick', 0)
+    if case.get('probe') == 'mof-forms':
+        mof_forms_probe(r)
+        if r.violations:
+            return False, 'property C12 FAILS for a MOF class declaration form: ' + json.dumps(r.violations[0]['sig']) + \
+                ' ' + json.dumps(r.violations[0]['observed'])
+        return True, 'all 8 MOF class declaration forms compile to the declared hierarchy'
     if case.get('probe') == 'non-ascii':
         unicode_probe(r)
         bad = [v for v in r.violations if v['case']['base'] == case['base'] and v['case']['order'] == case['order']]
